@@ -204,6 +204,21 @@ def docstring_ok(desc, via_parser=True):
     return model_ok
 
 
+DESC_POOL = ["a\n", " a", "a\n  b\n  c", "\ta", "a\n\n", "  ", "x\ty", "\n a", "a \n b", "First.\n\n    Indented.\n", "é\u2028z", "' in three", "# not a comment", "{braces} %s"]
+
+
+def docstring_readback_ok(i):
+    """emitted docstring is read back (Object.__init_subclass__) as exactly the description - real compiler"""
+    from vf.common import parse_s, serialize_python, exec_generated
+
+    desc = DESC_POOL[i]
+    cls = parse_s({"type": "object", "title": "Doc", "description": desc, "properties": {"p": {"type": "integer"}}})
+    ns = exec_generated(serialize_python(cls))
+    if ns is None:
+        return False
+    return ns["Doc"].__doc__ == desc and ns["Doc"].description == desc and ns["Doc"] == cls
+
+
 def desc_json_ok(desc):
     from vf.common import parse_s, serialize_json
 
@@ -265,6 +280,8 @@ return default_ok({S}, d, {loc}, {jloc}, {nd})
     hs.append(mk("c07_docstring_small_alphabet", "s: str", ["1 <= len(s) <= 4", "all(c in (chr(34), chr(39), chr(10), 'a') for c in s)"] + excl,
                  "return docstring_ok(s, True)", timeout=200, tier="thorough", group="description", covers="descriptions up to 4 chars over the alphabet {double quote, single quote, newline, a}"))
     hs.append(mk("c07_docstring__reach", "s: str", ["1 <= len(s) <= 3"] + excl, "return not docstring_ok(s, True)", kind="witness", timeout=30, group="description"))
+    hs.append(mk("c07_docstring_readback_pool", "i: int", [f"0 <= i < {len(DESC_POOL)}"], f"return docstring_readback_ok(concretize_int(i, 0, {len(DESC_POOL) - 1}))", timeout=120, group="description",
+                 covers="descriptions with leading/trailing whitespace, indentation, tabs, blank lines: generated class reads back exactly the description (exec)"))
     hs.append(mk("c07_description_json", "s: str", ["len(s) <= 3"], "return desc_json_ok(s)", timeout=60, group="description"))
     return hs
 
